@@ -171,6 +171,19 @@ def rule_b2(ctx):
     mats = [n for n in A.walk_local(S.fn) if isinstance(n, ast.Call) and A.dotted(n.func) in ('list', 'tuple', 'sorted', 'set')
             and n.args and A.is_name(n.args[0], 'generator')]
     rep.ob('B5', 'parallel_utils.single_thread_prefetch::source-not-materialised', not mats, mats[0] if mats else S.fn, '')
+    # the consumer holds one item at a time: it takes exactly one element per delivery and keeps no second buffer
+    t = S.consumer_try
+    grow = [n for n in A.walk_stmts(t.body) if isinstance(n, ast.Call) and isinstance(n.func, ast.Attribute)
+            and n.func.attr in ('append', 'extend', 'appendleft', 'add', 'insert')]
+    takes = [n for n in A.walk_stmts(t.body) if isinstance(n, ast.Call) and isinstance(n.func, ast.Attribute)
+             and A.is_name(n.func.value, S.q) and n.func.attr in ('get', 'get_nowait')]
+    inner_loops = [n for w in t.body if isinstance(w, ast.While) for n in A.walk_stmts(w.body) if isinstance(n, (ast.While, ast.For))]
+    ok = not grow and len(takes) == 1 and not inner_loops
+    rep.ob('B5', 'parallel_utils.single_thread_prefetch::consumer-takes-one-element-per-delivery', ok,
+           (grow + inner_loops + takes[1:])[0] if (grow or inner_loops or takes[1:]) else t,
+           '' if ok else 'the consumer empties the hand-over queue into a second buffer (%d take sites, %d inner loops, %d '
+           'growing containers): the worker refills the queue meanwhile, so read-ahead is about 2*buffer_size instead of '
+           'buffer_size + 2' % (len(takes), len(inner_loops), len(grow)))
     L = LPM(ctx)
     grow = [n for n in A.walk_stmts(L.with_.body) if isinstance(n, ast.Call) and isinstance(n.func, ast.Attribute)
             and n.func.attr in ('append', 'extend', 'appendleft', 'add', 'insert')]
